@@ -127,9 +127,9 @@ _excluded = {}
 def stratum(name):
     if name not in _strata:
         if name == "NC":
-            cof = [("any",), ("not", "a")]
-            _strata[name] = ([("nocase", ("or", x, y)) for x in (("lit", "b"), ("not", "a"), ("lit", "")) for y in cof] +
-                             [("nocase", ("or", y, ("lit", "b"))) for y in cof])
+            na, b = ("not", "a"), ("lit", "b")
+            _strata[name] = [("nocase", ("or", b, na)), ("nocase", ("or", na, b)), ("nocase", ("or", ("lit", ""), na)),
+                             ("nocase", ("or", b, ("any",)))]
         else:
             full = _stratum(name)
             keep = [t for t in full if not slow_compile(t)]
@@ -152,8 +152,9 @@ def _stratum(name):
     if name == "D2f":                 # binary with two depth-1 operands
         return list(M.binary_over(D1, D1))
     D2u = list(M.unary_over(D1))
-    if name == "D3u":                 # op(op(depth-1 term))
-        return list(M.unary_over(D2u))
+    if name == "D3u":                 # op(op(depth-1 term)), the two outer operators drawn from the 7 other than (-> n x)
+        u7 = [u for u in M.UNARY if u(("any",))[0] != "->"]
+        return [u1(u2(x)) for x in D1 for u2 in u7 for u1 in u7]
     if name == "D3m":                 # binary(op(depth-1 term), atom) both orders
         return list(M.binary_over(D2u, A)) + list(M.binary_over(A, D2u))
     if name == "X":                   # multi-byte family: depth <= 2 terms over {e-acute, E-acute, a, any} that mention e-acute
@@ -185,7 +186,7 @@ def subjects_for(name):
 # (stratum, subject set, est. ms per pair) in simplest-first order.
 PLAN = {
     "quick": [("A", "S4X", 0.5), ("D1", "S4X", 0.8), ("X", "X", 0.8), ("D2u", "S4X", 1.2), ("D2m", "S4X", 1.2)],
-    # NC first only so that its 8 one-SRE jobs (~100 s of compilation each) overlap with everything else;
+    # NC first only so that its 4 one-SRE jobs (~100 s of compilation each) overlap with everything else;
     # D2f last: it is the largest block, so a deadline leaves a prefix of it.
     "thorough": [("NC", "S2X", 1.0), ("A", "S4X", 0.5), ("D1", "S4X", 0.8), ("X", "X", 0.8), ("D2u", "S4X", 1.2), ("D2m", "S4X", 1.0),
                  ("A", "S56", 1.5), ("D1", "S56", 2.5), ("D2u", "S5", 2.5), ("D3u", "S4", 1.2), ("D2f", "S4", 1.0)],
@@ -392,7 +393,7 @@ def run_job(arg):
     terms = stratum(sn)[lo:hi]
     subs = subjects_for(un)
     both = sn in BOTH
-    d = common.scratch_dir("c20")
+    d = common.scratch_dir("c20w%d" % os.getppid())
     path = os.path.join(d, "job.scm")
     common.write_file(path, driver_text(terms, subs, both))
     res = run_stable(variant, path, d, len(terms))
@@ -537,16 +538,33 @@ def replay(path):
     return 1 if probs else 0
 
 
+def cleanup_workers():
+    """after Pool.terminate(): stop evalbatch children the killed workers left behind and remove their scratch"""
+    import signal
+    prefix = os.path.join(common.SCRATCH_ROOT, "c20w%d-" % os.getpid())
+    for pid in os.listdir("/proc"):
+        if pid.isdigit():
+            try:
+                if os.readlink("/proc/%s/cwd" % pid).startswith(prefix):
+                    os.kill(int(pid), signal.SIGKILL)
+            except OSError:
+                pass
+    if os.path.isdir(common.SCRATCH_ROOT):
+        for f in os.listdir(common.SCRATCH_ROOT):
+            if os.path.join(common.SCRATCH_ROOT, f).startswith(prefix):
+                shutil.rmtree(os.path.join(common.SCRATCH_ROOT, f), ignore_errors=True)
+
+
 # ------------------------------------------------------------------------------------------ main
 
 def main(tier):
-    chk = Check("C20", "exploration", tier, quick_s=150, thorough_s=1200)
+    chk = Check("C20", "exploration", tier, quick_s=150, thorough_s=1500)
     chk.clean_replays()
     chk.rule = ("SRE strata, each enumerated completely: A = the 8 leaves \"a\" \"b\" any (/ \"ab\") (~ \"a\") \"\" bol eol; D1 = every unary "
                 "operator * + ? (= 2 x) (** 1 2 x) ($ x) (-> n x) (w/nocase x) over A and every binary operator (: x y) (or x y) "
                 "over AxA; D2u = unary(D1); D2m = binary(D1,A) u binary(A,D1); D2f = binary(D1,D1) [A+D1+D2u+D2m+D2f = all SREs "
-                "of depth <= 2]; D3u = unary(D2u) (the depth-3 cap: operator chains over a depth-1 core); X = depth<=2 terms "
-                "mentioning e-acute / E-acute; NC = 8 slow-to-compile (w/nocase (or ..class..)) terms.  Subject sets, each "
+                "of depth <= 2]; D3u = u1(u2(D1)), u1,u2 any unary operator but (-> n x) (the depth-3 cap: operator chains over a depth-1 core); X = depth<=2 terms "
+                "mentioning e-acute / E-acute; NC = 4 slow-to-compile (w/nocase (or ..class..)) terms.  Subject sets, each "
                 "complete: S4 = all 121 strings of length <= 4 over {a,b,newline}; S5 / S56 = all of length 5 / 5..6; "
                 "S4X = S4 + 15 fixed strings with A, B, e-acute, E-acute; S2X, X = length <= 2 + the 15.  quick = "
                 "(A,D1,D2u,D2m) x S4X + X; thorough adds D2f x S4, D3u x S4, (A,D1) x S56, D2u x S5, NC; coverage.blocks lists "
@@ -610,6 +628,7 @@ def main(tier):
                 stopped = True
                 log("deadline reached after %d/%d jobs" % (done, len(jobs)))
                 break
+    cleanup_workers()
     for b in blocks:
         b["completed"] = b["jobs_done"] == b["jobs"]
         b["cpu_s"] = round(b["cpu_s"], 1)
